@@ -48,19 +48,24 @@ Definition send (s : st) : st * nat :=
   let num_frames := length (buf s) in
   ({| pulled := pulled s; buf := buf s; fr := insert key num_frames (fr s); nk := S (nk s) |}, key).
 
+(* the block  let frame = if frames_read < num_frames { self.buffer[frames_read] }
+                           else { let frame = self.signal.next(); self.buffer.push_back(frame); frame };
+   result: (frame, buffer, source pull counter) *)
+Definition read_or_pull (s : st) (frames_read : nat) : res (F * list F * nat) :=
+  let num_frames := length (buf s) in
+  if frames_read <? num_frames
+  then let* x := get_checked (buf s) frames_read in Ok (x, buf s, pulled s)
+  else let x := f (pulled s) in Ok (x, buf s ++ [x], S (pulled s)).
+
 (* SharedNode::next_frame *)
 Definition next_frame (s : st) (key : nat) : res (st * F) :=
-  let num_frames := length (buf s) in
   match lookup key (fr s) with
   | None => Panic PExpect                        (* .remove(&key).expect("no frames_read for Output") *)
   | Some frames_read =>
     let fr1 := remove key (fr s) in
-    let* fbp :=
-      (if frames_read <? num_frames
-       then let* x := get_checked (buf s) frames_read in Ok (x, buf s, pulled s)   (* self.buffer[frames_read] *)
-       else let x := f (pulled s) in Ok (x, buf s ++ [x], S (pulled s)))           (* signal.next(); push_back *)
-    in
+    let* fbp := read_or_pull s frames_read in
     let '(frame, buf1, pulled1) := fbp in
+    (* !self.frames_read.values().any(|&other| other <= frames_read) *)
     let least_frames_read := negb (existsb (fun kv => snd kv <=? frames_read) fr1) in
     if least_frames_read
     then (* pop_front; every other counter -= 1; this output keeps frames_read *)
